@@ -39,13 +39,13 @@ def run(tier):
                        what="calc_ast_hash on pairs (A,B): 6 program shapes x leaf kind {int in [-2,2], bool, str over an 8-character class alphabet "
                             "(ascii, quote, backslash, space, Latin-1, >U+00FF, astral, digit) of length <=%d, float edge values}; B derived from A by a "
                             "solver-split relation: rebuild (same/other binder name), unparse/parse round trip, non-field annotations (lineno, _q_metadata, "
-                            "executor, arbitrary attribute), one of 11 single edits, or the same edit applied to both; oracle: hashes equal iff structurally identical"
+                            "executor, arbitrary attribute), one of 12 single edits (incl. one non-ASCII character replaced by another), the same edit applied to both, a shallow copy of the top node with a replaced argument, or an in-place edit between two hash computations; oracle: hashes equal iff structurally identical"
                             % (1 if tier == "quick" else 2))]
     r, so = base.run_s(PROP, tier, "other", jobs,
                        explanation="bounded symbolic execution (CrossHair/z3) of calc_ast_hash; all leaves are bounded and case-split by the solver because "
                                    "ast.dump->repr->md5 is C code that realises its input (stated bound, not 'all strings')",
                        functions=["func_adl.ast.ast_hash.calc_ast_hash"],
-                       bounds={"shapes": 6, "int_leaf": [-2, 2], "str_alphabet": 8, "str_len": 1 if tier == "quick" else 2, "relations": 5, "edit_kinds": 11},
+                       bounds={"shapes": 6, "int_leaf": [-2, 2], "str_alphabet": 8, "str_len": 1 if tier == "quick" else 2, "relations": 7, "edit_kinds": 12},
                        extra_assumptions=["md5 collisions are outside the claim", "0.0 vs -0.0 and NaN are excluded (whether they are 'identical' is debatable)"],
                        not_traced=["construction of the pair (A,B) and the structural comparer (harness side)", "hashlib.md5, repr (C code, concrete)"])
     cross_process(r)
